@@ -9,5 +9,6 @@ CONSTANTS
   GcProtectsBuilding = TRUE
   MaxFaults = 1
   StoreMetaFirst = FALSE
+  KillWaits = TRUE
 INVARIANT OrphanIsF4Class
 CHECK_DEADLOCK FALSE
